@@ -400,6 +400,11 @@ func init() {
 				cs = append(cs, Case{ID: fmt.Sprintf("function/%d", s), Run: func() CaseResult { return c04Function(s, fs) }})
 			}
 			cs = append(cs, Case{ID: "trees", Run: c04Trees})
+			// ranges folded by real merges: every ordered pair (thorough: triples) of interval shapes
+			cs = append(cs, Case{ID: "merge-shapes/pairs", Run: func() CaseResult { return mergeShapeCase(sweepOpts{c01: true}, false) }})
+			if tier == "thorough" {
+				cs = append(cs, Case{ID: "merge-shapes/triples", Run: func() CaseResult { return mergeShapeCase(sweepOpts{c01: true}, true) }})
+			}
 			if tier == "thorough" {
 				es = 48
 			}
@@ -413,6 +418,6 @@ func init() {
 			}
 			return cs
 		},
-		Rule: "every block population of one or two values from the boundary alphabet (every Go integer/float kind incl. named types, int64 extremes, beyond-int64 magnitudes, ±Inf at function level) x every condition (10 operators x boundary operands, IN/NOT_IN lists of size 0-2, all ordered and inverted BETWEEN pairs) x {function level, metadata level, real flush, real merge}; non-trivial = some value of the population satisfies the condition by exact math/big arithmetic",
+		Rule: "every block population of one or two values from the boundary alphabet (every Go integer/float kind incl. named types, int64 extremes, beyond-int64 magnitudes, ±Inf at function level) x every condition (10 operators x boundary operands, IN/NOT_IN lists of size 0-2, all ordered and inverted BETWEEN pairs) x {function level, metadata level, real flush, real merge}; plus every ordered pair (thorough: triples) of minmax interval shapes x file sizes merged by the engine and queried with every threshold condition; non-trivial = some value of the population satisfies the condition by exact math/big arithmetic",
 	}
 }
